@@ -1,7 +1,7 @@
 import DarkluaModel.Shared.VisitorSound.HeapU.ULinks
 import DarkluaModel.Shared.VisitorSound.Heap.HFam
 /-!
-# Stage 4 instance of `CongFam`: chains of `VR` links
+# Unified stage-4 instance of `CongFam`: chains of `VR cx` links
 -/
 namespace DarkluaModel.Sem.HeapU
 open Heap (addSelf addSelf_none ch_pairs)
@@ -100,13 +100,13 @@ theorem vk_function {name m f f'} (h : (VkF cx) f f') : (VkS cx) (.function name
   | cons root path =>
     have hn' := NoRefS.functionCons.mp hn
     have hh := h D hd m hn'.2.2.2 hn'.2.2.1
-    exact ⟨.function (fun _ hr => by cases hr; exact hn'.1) hh.1,
+    exact ⟨.function (fun _ hr => by cases hr; exact ⟨hn'.1, hn'.2.1⟩) hh.1,
       NoRefS.functionCons.mpr ⟨hn'.1, hn'.2.1, hn'.2.2.1, hh.2⟩⟩
 theorem vk_gfor {ns ns' vs vs' b b'} (hnm : ns.map TName.name = ns'.map TName.name) (h1 : Forall2 (VkE cx) vs vs')
     (h2 : (VkB cx) b b') : (VkS cx) (.gfor ns vs b) (.gfor ns' vs' b') := fun D hd hn =>
   have hh := NoRefS.gfor.mp hn
   let ⟨⟨_, hb⟩, hnb⟩ := h2 D hd hh.2.2
-  ⟨.gfor hnm (vkEs h1 D hd hh.2.1).1 hb,
+  ⟨.gfor hnm (Heap.NoWat.names (Heap.NoWat.congr hnm hh.1)) (vkEs h1 D hd hh.2.1).1 hb,
     NoRefS.gfor.mpr ⟨Heap.NoWat.congr hnm hh.1, (vkEs h1 D hd hh.2.1).2, hnb⟩⟩
 theorem vk_nfor {n n' a a' b b' st st' body body'} (hnm : TName.name n = TName.name n') (h1 : (VkE cx) a a') (h2 : (VkE cx) b b')
     (h3 : OptRel (VkE cx) st st') (h4 : (VkB cx) body body') :
@@ -118,11 +118,11 @@ theorem vk_nfor {n n' a a' b b' st st' body body'} (hnm : TName.name n = TName.n
   cases st <;> cases st' <;> simp only [OptRel] at h3
   · have hh := NoRefS.nforNone.mp hn
     obtain ⟨⟨_, hb⟩, hnb⟩ := h4 D hd hh.2.2.2
-    exact ⟨.nforNone rfl (h1 D hd hh.2.1).1 (h2 D hd hh.2.2.1).1 hb,
+    exact ⟨.nforNone rfl hh.1 (h1 D hd hh.2.1).1 (h2 D hd hh.2.2.1).1 hb,
       NoRefS.nforNone.mpr ⟨hh.1, (h1 D hd hh.2.1).2, (h2 D hd hh.2.2.1).2, hnb⟩⟩
   · have hh := NoRefS.nforSome.mp hn
     obtain ⟨⟨_, hb⟩, hnb⟩ := h4 D hd hh.2.2.2.2
-    exact ⟨.nforSome rfl (h1 D hd hh.2.1).1 (h2 D hd hh.2.2.1).1 (h3 D hd hh.2.2.2.1).1 hb,
+    exact ⟨.nforSome rfl hh.1 (h1 D hd hh.2.1).1 (h2 D hd hh.2.2.1).1 (h3 D hd hh.2.2.2.1).1 hb,
       NoRefS.nforSome.mpr ⟨hh.1, (h1 D hd hh.2.1).2, (h2 D hd hh.2.2.1).2, (h3 D hd hh.2.2.2.1).2, hnb⟩⟩
 theorem vk_ifs {brs brs' els els'} (h1 : Forall2 (PairRel (VkE cx) (VkB cx)) brs brs') (h2 : OptRel (VkB cx) els els') :
     (VkS cx) (.ifs brs els) (.ifs brs' els') := fun D hd hn => by
@@ -135,13 +135,13 @@ theorem vk_ifs {brs brs' els els'} (h1 : Forall2 (PairRel (VkE cx) (VkB cx)) brs
 theorem vk_localAssign {kind ns ns' vs vs'} (hnm : ns.map TName.name = ns'.map TName.name) (h : Forall2 (VkE cx) vs vs') :
     (VkS cx) (.localAssign kind ns vs) (.localAssign kind ns' vs') := fun D hd hn =>
   have hh := NoRefS.localAssign.mp hn
-  ⟨.localAssign hnm (vkEs h D hd hh.2).1,
+  ⟨.localAssign hnm (Heap.NoWat.names (Heap.NoWat.congr hnm hh.1)) (vkEs h D hd hh.2).1,
     NoRefS.localAssign.mpr ⟨Heap.NoWat.congr hnm hh.1, (vkEs h D hd hh.2).2⟩⟩
 theorem vk_localFn {kind name f f'} (h : (VkF cx) f f') : (VkS cx) (.localFn kind name f) (.localFn kind name f') := fun D hd hn => by
   have hn' := NoRefS.localFn.mp hn
   have hh := h D hd none hn'.2 (fun h => by simp at h)
   rw [addSelf_none, addSelf_none] at hh
-  exact ⟨.localFn hh.1, NoRefS.localFn.mpr ⟨hn'.1, hh.2⟩⟩
+  exact ⟨.localFn hn'.1 hh.1, NoRefS.localFn.mpr ⟨hn'.1, hh.2⟩⟩
 theorem vk_repeat {b b' c c'} (h : (VkRep cx) (b, c) (b', c')) : (VkS cx) (.repeat_ b c) (.repeat_ b' c') := fun D hd hn =>
   have hh := NoRefS.repeat_.mp hn
   ⟨.repeat_ (h D hd hh.1 hh.2).1, NoRefS.repeat_.mpr (h D hd hh.1 hh.2).2⟩
@@ -169,11 +169,16 @@ theorem vk_fnBody {ps ps' v vt vt' r r' g g' a a' b b'} (hnm : ps.map TName.name
   have hw' := Heap.NoWat.congr hnm hn'.1
   refine ⟨?_, NoRefF.mk.mpr ⟨hw', hnb⟩⟩
   cases m with
-  | none => exact .fnBody hnm hb
+  | none => exact .fnBody hnm (Heap.NoWat.names hw') hb
   | some _ =>
-    exact .fnBody (by simp only [List.map_cons, hnm]) hb
+    refine .fnBody (by simp only [List.map_cons, hnm]) ?_ hb
+    intro n hn
+    simp only [List.map_cons, TName.name, List.mem_cons] at hn
+    rcases hn with rfl | hn
+    · exact hs rfl
+    · exact Heap.NoWat.names hw' n hn
 
-/-- the stage-4 congruence family: chains of `VR` links -/
+/-- the congruence family: chains of `VR cx` links -/
 def vFam (cx : Cx) : CongFam where
   relE := Chain (VkE cx)
   relT := Chain (VkT cx)
